@@ -170,7 +170,7 @@ Proof.
   assert (d = N.of_nat (length (firstn (N.to_nat d) (concat pieces)))) as Hlen.
   { rewrite firstn_length. lia. }
   destruct (d <=? N.of_nat PROBE_MAX)%N.
-  - cbn [out_of]. rewrite PrinterRoundBase.vectored_independent, <- ?app_assoc.
+  - rewrite <- Hlen, N.eqb_refl. cbn [out_of]. rewrite PrinterRoundBase.vectored_independent, <- ?app_assoc.
     apply srv_cl_output; assumption.
   - rewrite <- Hlen, N.eqb_refl. cbn [out_of]. rewrite <- ?app_assoc.
     apply srv_cl_output; assumption.
